@@ -77,12 +77,27 @@ def case_st(draw, only=None):
         k = draw(st.integers(0, len(desc["terms"]) - 1))
         top = max(range(len(desc["terms"])), key=lambda i: (sum(desc["terms"][i][0]), desc["terms"][i][0]))
         desc["terms"][top][1] = [0] * size
+    if fn == "set_dimensions" and len(names) >= 3 and desc["terms"] and draw(st.booleans()):
+        # terms that use a late name but not the first dropped one (only the whole tail decides what is dropped)
+        for t in desc["terms"]:
+            if draw(st.booleans()):
+                t[0][1] = 0
+                t[0][-1] = t[0][-1] or 1
+        seen, kept = set(), []
+        for t in desc["terms"]:
+            if tuple(t[0]) not in seen:
+                seen.add(tuple(t[0]))
+                kept.append(t)
+        desc["terms"] = kept
     if fn == "tonumpy" and draw(st.booleans()):
         desc["terms"] = [t for t in desc["terms"] if not any(t[0])][:1]
     if fn == "isconstant" and draw(st.integers(0, 2)) == 0:
         desc["terms"] = [t for t in desc["terms"] if not any(t[0])][:1]
+    dims = draw(st.integers(1, 5))
+    if fn == "set_dimensions" and len(names) >= 2 and draw(st.booleans()):
+        dims = draw(st.integers(1, len(names) - 1))
     return {"fn": fn, "poly": desc, "graded": draw(st.booleans()), "reverse": draw(st.booleans()),
-            "dims": draw(st.integers(1, 5)), "which": draw(st.sampled_from(["argmax", "argmin", "amax", "amin"])),
+            "dims": dims, "which": draw(st.sampled_from(["argmax", "argmin", "amax", "amin"])),
             "spelling": draw(st.sampled_from(["numpoly", "numpy", "method"]))}
 
 
